@@ -732,9 +732,10 @@ def d5_consumers(ctx, idx, st):
             sinks = ta.sinks(fi)
             if sinks:
                 for n, how in sinks:
-                    r.violation('%s: usage set' % fi.qualname, '`%s` (%s) mutates a set that is (an alias of) the '
-                                'variables/functions/suffixes_used of a parsed expression; the expression is cached process-wide, so '
-                                'every later parse or evaluation of the same formula reports the altered set' % (short(n), how),
+                    r.violation('%s: usage set' % fi.qualname, '`%s` (%s) mutates, outside the parser, a set that is (an alias of) the '
+                                'variables/functions/suffixes_used of a parse result; parse results are cached process-wide, so '
+                                'every later parse or evaluation of the same formula reports the altered name set (take a copy, '
+                                'e.g. set(x) / x.union(...), before adding to it)' % (short(n), how),
                                 lib.loc(fi, n))
             else:
                 got = sorted(ta.local.get(fi.qualname, ()))
